@@ -2,14 +2,14 @@
   Driver — line protocol: one JSON request per line on stdin, one JSON answer per line on stdout.
   Run as a compiled executable (`lake build npdriver`) or `lake env lean --run Driver.lean`.
 -/
-import NPModel.Driver.Ops
+import NPModel.Driver.FrameOps
 
 partial def loop (hin hout : IO.FS.Stream) : IO Unit := do
   let line ← hin.getLine
   if line.isEmpty then return ()
   let t := line.trimAscii.toString
   if !t.isEmpty then
-    hout.putStrLn (NP.handleLine t)
+    hout.putStrLn (NP.handleLine2 t)
     hout.flush
   loop hin hout
 
